@@ -350,7 +350,8 @@ class GeckoSimulator(GeckoCmd):
                 self._STATUS_BLOCK_SEGMENT_SIZE,
                 len(self.structure.status_block) - start,
             )
-            next = (idx + 1) % ((handler.length // self._STATUS_BLOCK_SEGMENT_SIZE) + 1)
+            # Number of segments is the length divided by the segment size, rounded up
+            next = (idx + 1) % -(-handler.length // self._STATUS_BLOCK_SEGMENT_SIZE)
             if self._should_ignore(handler, sender, False):
                 continue
             self._socket.queue_send(
